@@ -307,10 +307,15 @@ class _Run:
             return Node(spec, "leaf", self.decorate(w, spec), w)
         if k == "Pile":
             kids = [self.build(s, "flow") for s in spec.get("kids", [])]
-            base = urwid.Pile([c.w for c in kids])
             fp = spec.get("fp")
-            if fp is not None and kids:
-                base.focus_position = fp % len(kids)
+            if spec.get("ctor") and fp is not None and kids:
+                # the initial focus given to the constructor (position or widget) instead of assigned afterwards
+                at = fp % len(kids)
+                base = urwid.Pile([c.w for c in kids], focus_item=at if spec["ctor"] == 1 else kids[at].w)
+            else:
+                base = urwid.Pile([c.w for c in kids])
+                if fp is not None and kids:
+                    base.focus_position = fp % len(kids)
         elif k == "Columns":
             kids = [self.build(s, "flow") for s in spec.get("kids", [])]
             items = []
@@ -318,16 +323,24 @@ class _Run:
                 gw = (spec.get("given") or [0])[i % len(spec.get("given") or [0])]
                 # gw > 0: ('given', gw); gw == 0: default weight; gw < 0: ('given', 0), a column that is never displayed
                 items.append((max(gw, 0), c.w) if gw else c.w)
-            base = urwid.Columns(items, dividechars=spec.get("div", 0))
             fp = spec.get("fp")
-            if fp is not None and kids:
-                base.focus_position = fp % len(kids)
+            if spec.get("ctor") and fp is not None and kids:
+                at = fp % len(kids)
+                base = urwid.Columns(items, dividechars=spec.get("div", 0), focus_column=at if spec["ctor"] == 1 else kids[at].w)
+            else:
+                base = urwid.Columns(items, dividechars=spec.get("div", 0))
+                if fp is not None and kids:
+                    base.focus_position = fp % len(kids)
         elif k == "GridFlow":
             kids = [self.build(s, "flow") for s in spec.get("kids", [])]
-            base = urwid.GridFlow([c.w for c in kids], spec.get("cw", 5), spec.get("hsep", 1), spec.get("vsep", 0), "left")
             fp = spec.get("fp")
-            if fp is not None and kids:
-                base.focus_position = fp % len(kids)
+            if spec.get("ctor") and fp is not None and kids:
+                at = fp % len(kids)
+                base = urwid.GridFlow([c.w for c in kids], spec.get("cw", 5), spec.get("hsep", 1), spec.get("vsep", 0), "left", focus=at if spec["ctor"] == 1 else kids[at].w)
+            else:
+                base = urwid.GridFlow([c.w for c in kids], spec.get("cw", 5), spec.get("hsep", 1), spec.get("vsep", 0), "left")
+                if fp is not None and kids:
+                    base.focus_position = fp % len(kids)
         elif k == "ListBox":
             kids = [self.build(s, "flow") for s in spec.get("kids", [])]
             wk = spec.get("walker", "focus")
@@ -1222,6 +1235,8 @@ class ContainersEngine(Engine):
             spec = {"k": kind, "kids": kids}
             if rng.random() < 0.3 and kids:
                 spec["fp"] = rng.randrange(len(kids))
+                if kind != "ListBox" and rng.random() < 0.3:
+                    spec["ctor"] = rng.choice([1, 2])  # initial focus through the constructor: by position / by widget
             if kind == "Columns":
                 spec["div"] = rng.choice([0, 0, 1])
                 if rng.random() < 0.3:
